@@ -29,10 +29,11 @@ from .c12_str import (V, Unk, Const, Param, Neg, Abs, Round, IntOf, FloatOf, Len
 class FuncV(V):
     """a function defined inside the function under evaluation (nested def / lambda); it is followed when called from that very frame,
     where its free variables are the caller's locals"""
-    __slots__ = ("node", "owner")
+    __slots__ = ("node", "owner", "closure")
 
-    def __init__(self, node, owner):
+    def __init__(self, node, owner, closure=None):
         self.node, self.owner = node, owner
+        self.closure = closure               # locals of the frame that defined it, once that frame has returned (a function made by a factory)
 
     def __eq__(self, o):
         return isinstance(o, FuncV) and o.node is self.node
@@ -42,6 +43,23 @@ class FuncV(V):
 
     def __repr__(self):
         return f"FuncV({getattr(self.node, 'name', 'lambda')})"
+
+
+class BufV(V):
+    """an io.StringIO made by the code under evaluation: the pieces written to it so far (held in a local, replaced on every write)"""
+    __slots__ = ("parts",)
+
+    def __init__(self, parts=()):
+        self.parts = tuple(parts)
+
+    def __eq__(self, o):
+        return isinstance(o, BufV) and o.parts == self.parts
+
+    def __hash__(self):
+        return hash(("BufV", self.parts))
+
+    def __repr__(self):
+        return f"BufV({len(self.parts)} pieces)"
 
 
 class Interval:
@@ -161,17 +179,31 @@ def _plain_function(fn):
     ok = getattr(fn, "_c12_plain", None)
     if ok is None:
         ok = isinstance(fn, ast.Lambda) or (isinstance(fn, ast.FunctionDef) and not fn.decorator_list)
+        gen = False
         if ok:
+            par = {}
             stack = list(fn.body) if isinstance(fn.body, list) else [fn.body]
             while stack:
                 n = stack.pop()
-                if isinstance(n, (ast.Yield, ast.YieldFrom, ast.Await, ast.Nonlocal, ast.Global)):
+                if isinstance(n, (ast.Await, ast.Nonlocal, ast.Global)):
                     ok = False
                     break
+                if isinstance(n, (ast.Yield, ast.YieldFrom)):
+                    # a generator that only produces values (`yield x` / `yield from xs` as statements): its items are collected
+                    gen = True
+                    if not isinstance(par.get(id(n)), ast.Expr):
+                        ok = False
+                        break
                 if isinstance(n, (ast.FunctionDef, ast.AsyncFunctionDef, ast.Lambda, ast.ClassDef)):
                     continue
-                stack.extend(ast.iter_child_nodes(n))
+                for c in ast.iter_child_nodes(n):
+                    par[id(c)] = n
+                    stack.append(c)
+        if ok and gen:
+            # a `return value` in a generator is not a value any caller here reads
+            ok = not any(isinstance(n, ast.Return) and n.value is not None for n in ast.walk(fn))
         fn._c12_plain = ok
+        fn._c12_gen = ok and gen
     return ok
 
 
@@ -340,6 +372,22 @@ class Engine:
         return [(st2, self.ev(expr, st2)) for st2 in self.prefork(sites, st)]
 
     def _stmt(self, s, st):
+        if isinstance(s, ast.Expr) and isinstance(s.value, (ast.Yield, ast.YieldFrom)):
+            out = []
+            if s.value.value is None:
+                forks = [(st, Const(None))]
+            else:
+                forks = self.forking_eval(s.value.value, st)
+            for st2, v in forks:
+                cur = st2.env.get("<yield>")
+                if isinstance(s.value, ast.YieldFrom):
+                    v = _as_sequence(v)
+                    add = v.items if isinstance(v, Tup) else None
+                else:
+                    add = (v,)
+                st2.env["<yield>"] = Tup(cur.items + add) if isinstance(cur, Tup) and add is not None else Unk("yield outside a followed generator")
+                out.append((st2, "next", None))
+            return out
         if isinstance(s, ast.Expr):
             if isinstance(s.value, ast.Constant):
                 return [(st, "next", None)]
@@ -460,14 +508,19 @@ class Engine:
             for tree in (self.mod.tree, self.fn):
                 if tree is None:
                     continue
-                nodes = tree.body if isinstance(tree, ast.Module) else list(ast.walk(tree))
-                for n in nodes:
-                    if isinstance(n, ast.Import):
-                        for a in n.names:
-                            imp[(a.asname or a.name).split(".")[0]] = a.name if a.asname else a.name.split(".")[0]
-                    elif isinstance(n, ast.ImportFrom) and n.module and not n.level:
-                        for a in n.names:
-                            imp[a.asname or a.name] = n.module + "." + a.name
+                part = getattr(tree, "_c12_imports", None)
+                if part is None:
+                    part = {}
+                    nodes = tree.body if isinstance(tree, ast.Module) else list(ast.walk(tree))
+                    for n in nodes:
+                        if isinstance(n, ast.Import):
+                            for a in n.names:
+                                part[(a.asname or a.name).split(".")[0]] = a.name if a.asname else a.name.split(".")[0]
+                        elif isinstance(n, ast.ImportFrom) and n.module and not n.level:
+                            for a in n.names:
+                                part[a.asname or a.name] = n.module + "." + a.name
+                    tree._c12_imports = part
+                imp.update(part)
             self._imports = imp
         head, _, rest = d.partition(".")
         if head not in imp:
@@ -809,6 +862,7 @@ class Engine:
             if isinstance(v, FuncV):
                 if v.owner != id(self) or len(self._stack) >= MAX_INLINE_DEPTH or ("<local>" + nm) in self._stack or not _plain_function(v.node):
                     return None
+                node._c12_closure = v.closure
                 return "<local>" + nm, v.node
             if not (isinstance(v, Opaque) and v.name.startswith("name:") and not v.args):
                 return None
@@ -836,10 +890,16 @@ class Engine:
                             and not n.generators[0].is_async:
                         cand.append(n)               # a filtered comprehension: its filters may part the paths
                     return
+                if n is not expr and _boolean_expr(n) and not isinstance(n, (ast.Constant, ast.Call)):
+                    cand.append(n)                   # a test in value position (an index, an operand, an argument): it parts the paths
+                    return
                 if isinstance(n, ast.BoolOp):
                     visit(n.values[0])
                     return
                 if isinstance(n, ast.IfExp):
+                    if n is not expr:
+                        cand.append(n)               # a conditional expression inside a larger one: its test parts the paths
+                        return
                     visit(n.test)
                     return
                 if isinstance(n, ast.Compare) and len(n.ops) > 1:
@@ -875,6 +935,22 @@ class Engine:
         return cur
 
     def _prefork_one(self, node, st):
+        if isinstance(node, (ast.Compare, ast.BoolOp, ast.UnaryOp)):
+            key = _comp_key(node)
+            st.env.pop(key, None)
+            out = []
+            for truth, st2 in self.decide(node, st):
+                st2.env[key] = Const(truth)
+                out.append(st2)
+            return out
+        if isinstance(node, ast.IfExp):
+            key = _comp_key(node)
+            st.env.pop(key, None)
+            out = []
+            for st2, v in self.forking_eval(node, st):
+                st2.env[key] = v
+                out.append(st2)
+            return out
         if not isinstance(node, ast.Call):
             return self._prefork_comp(node, st)
         if self.lib_name(node.func) in _BISECT and self.resolve_callee(node, st) is None:
@@ -1025,12 +1101,19 @@ class Engine:
         if env is None:
             return None
         closure = name.startswith("<local>")
+        captured = getattr(node, "_c12_closure", None)
         own = set()
-        if closure:
+        if closure and captured is not None:
+            env = {**{k: v for k, v in captured.items() if not k.startswith("<")}, **env}     # free variables: the locals of the frame that made it
+            closure = False
+        elif closure:
             own = set(env) | {n.id for n in ast.walk(fn) if isinstance(n, ast.Name) and isinstance(n.ctx, (ast.Store, ast.Del))}
-            env = {**{k: v for k, v in st.env.items() if not k.startswith(("<call:", "<comp:"))}, **env}      # free variables: the caller's locals
+            env = {**{k: v for k, v in st.env.items() if not k.startswith("<")}, **env}      # free variables: the caller's locals
         else:
             self.ctx.src.funcs_consulted.add(f"{self.rel}:{name}")
+        is_gen = getattr(fn, "_c12_gen", False)
+        if is_gen:
+            env["<yield>"] = Tup(())
         sub = type(self)(self.ctx, self.rel, fn, param=self.param, cond=self.cond_hook, call=self.call_hook, cmp=self.cmp_hook, length=self.len_hook,
                      follow=self.follow, post=self.post_hook, lenient=self.lenient, exceptions=self.exceptions, strict_locals=self._strict_flag,
                      inline=self.inline, _stack=self._stack + (name,))
@@ -1067,8 +1150,17 @@ class Engine:
                     ns.env[mine] = v if isinstance(v, Tup) else Unk("list altered by a helper")
                 elif how == "escapes":
                     ns.env[mine] = Unk("list handed to a helper that may alter it")
-            if o == "return":
-                out.append((ns, "value", pay[0]))
+            if is_gen and o in ("return", "next"):
+                # the generator's items, as if collected into a list where it is consumed.  Its own effects would happen *while* it is
+                # consumed: only generators that just compute are followed
+                if any(not e[0].startswith("<local>") and e[0] not in self.mod.funcs for e in s2.effects[len(effects):]):
+                    raise Unsupported(f"{name}: a generator with effects of its own")
+                out.append((ns, "value", s2.env.get("<yield>", Unk("generator"))))
+            elif o == "return":
+                v = pay[0]
+                if any(isinstance(x, FuncV) and x.owner == id(sub) for x in walk_value(v)):
+                    v = _reown(v, id(sub), id(self), s2.env)
+                out.append((ns, "value", v))
             elif o == "next":
                 out.append((ns, "value", Const(None)))
             elif o in ("raise", "exc"):
@@ -1113,6 +1205,24 @@ class Engine:
                             other.update(x.names)
             tl = self._tracked = plain - other - params
         return tl
+
+    def local_names(self):
+        """names the function binds itself (they never mean the module-level name of the same spelling)"""
+        ln = getattr(self, "_localnames", None)
+        if ln is None:
+            ln = set()
+            if self.fn is not None:
+                glob = set()
+                for n in ast.walk(self.fn):
+                    if isinstance(n, ast.Global):
+                        glob.update(n.names)
+                    elif isinstance(n, ast.Name) and isinstance(n.ctx, (ast.Store, ast.Del)):
+                        ln.add(n.id)
+                    elif isinstance(n, ast.arg):
+                        ln.add(n.arg)
+                ln -= glob
+            self._localnames = ln
+        return ln
 
     def known_names(self):
         """every name that is bound somewhere: builtins, module-level bindings (assignments, defs, classes, imports, anywhere at module
@@ -1248,7 +1358,7 @@ class Engine:
         if isinstance(node, ast.Name):
             if node.id in st.env:
                 return st.env[node.id]
-            mc = self.module_const(node.id)
+            mc = None if node.id in self.local_names() else self.module_const(node.id)
             if mc is not None:
                 return mc
             if self.fn is not None and node.id not in self.known_names() and "*" not in self.known_names():
@@ -1265,6 +1375,9 @@ class Engine:
                 return Unk("dict unpacking")
             return DictV(tuple((self._ev(k, st), self._ev(v, st)) for k, v in zip(node.keys, node.values)))
         if isinstance(node, ast.UnaryOp) and isinstance(node.op, ast.Not):
+            memo = st.env.get(_comp_key(node))
+            if memo is not None:
+                return memo
             r = self.decide(node, st.fork())
             truths = {t for t, _ in r}
             if len(truths) == 1:
@@ -1284,6 +1397,9 @@ class Engine:
         if isinstance(node, ast.BinOp):
             return self.binop(node.op, self._ev(node.left, st), self._ev(node.right, st), st)
         if isinstance(node, ast.IfExp):
+            memo = st.env.get(_comp_key(node))
+            if memo is not None:
+                return memo
             r = self.decide(node.test, st.fork())
             truths = {t for t, _ in r}
             if truths == {True}:
@@ -1298,9 +1414,29 @@ class Engine:
             r = self.call(node, st)
             return self.post_hook(r, st, self) if self.post_hook is not None else r
         if isinstance(node, ast.Attribute):
+            if node.attr == "format" and (not isinstance(node.value, ast.Name) or node.value.id in st.env or self.module_const(node.value.id) is not None):
+                recv = self._ev(node.value, st)
+                if is_str(recv):
+                    return Opaque("bound:format", (recv,))          # `render = template.format`
             d = dotted(node)
             return Opaque("name:" + (d or ast.unparse(node)), ())
+        if isinstance(node, ast.BoolOp) and not _boolean_expr(node):
+            # `a or b` / `a and b` between values that are not tests: the result is one of the operands
+            is_and = isinstance(node.op, ast.And)
+            for i, e in enumerate(node.values):
+                v = self._ev(e, st)
+                if i == len(node.values) - 1:
+                    return v
+                truths = {t for t, _ in self._decide(e, st.fork())} if self.cond_hook is not None and not isinstance(e, ast.NamedExpr) \
+                    else {t for t, _ in self._truth(e, v, st.fork())}
+                if len(truths) != 1:
+                    return Opaque("test", (Lit(ast.unparse(node)),))
+                if truths.pop() != is_and:
+                    return v
         if isinstance(node, (ast.Compare, ast.BoolOp)):
+            memo = st.env.get(_comp_key(node))
+            if memo is not None:
+                return memo
             r = self.decide(node, st.fork())
             truths = {t for t, _ in r}
             if len(truths) == 1:
@@ -1464,6 +1600,10 @@ class Engine:
                 return Slice(base, lo, hi)
             return Unk("slice of " + type(base).__name__)
         ix = self._ev(sl, st)
+        if isinstance(base, DictV) and (_is_bool(ix) or is_num(ix)):
+            for k, v in base.items:                  # True == 1 and False == 0 as keys
+                if (Fraction(int(k.value)) if _is_bool(k) else k) == (Fraction(int(ix.value)) if _is_bool(ix) else ix):
+                    return v
         if _is_bool(ix):
             ix = Fraction(int(ix.value))             # (a, b)[test]: False -> 0, True -> 1
         i = as_int(ix)
@@ -1475,6 +1615,8 @@ class Engine:
             try:
                 return base.items[i]
             except IndexError:
+                if self.exceptions:
+                    raise Raised("IndexError")
                 return Unk("index out of range")
         if isinstance(base, DictV):
             for k, v in base.items:
@@ -1485,6 +1627,8 @@ class Engine:
             try:
                 return Lit(base.s[i])
             except IndexError:
+                if self.exceptions:
+                    raise Raised("IndexError")       # concrete text, concrete index: the code under evaluation raises here
                 return Unk("index out of range")
         if is_str(base) and i is not None and i >= 0:
             return Slice(base, Fraction(i) if i else None, Fraction(i + 1))
@@ -1502,11 +1646,22 @@ class Engine:
         if isinstance(root, ast.Name) and root.id not in st.env and self.fn is not None and root.id not in self.known_names() \
                 and "*" not in self.known_names():
             raise Raised("NameError")
-        if any(isinstance(a, ast.Starred) for a in node.args) or any(k.arg is None for k in node.keywords):
+        if isinstance(root, ast.Name) and root is not node.func and root.id not in st.env and self.strict_locals and root.id in self.tracked_locals():
+            raise Raised("UnboundLocalError")        # a method of a plain local that nothing was assigned to on this path
+        if any(k.arg is None for k in node.keywords):
             args, kw = None, None
         else:
-            args = [self._ev(a, st) for a in node.args]
-            kw = {k.arg: self._ev(k.value, st) for k in node.keywords}
+            args = []
+            for a in node.args:
+                if isinstance(a, ast.Starred):
+                    v = _as_sequence(self._ev(a.value, st))          # f(*layout): the items of a literal sequence
+                    if not isinstance(v, Tup):
+                        args = None
+                        break
+                    args.extend(v.items)
+                else:
+                    args.append(self._ev(a, st))
+            kw = {k.arg: self._ev(k.value, st) for k in node.keywords} if args is not None else None
         if args is None:
             st.effects = st.effects + ((name or ast.unparse(node.func), None, None, node),)
             return Unk("star arguments")
@@ -1525,6 +1680,20 @@ class Engine:
                 return Const(None)
             st.env[node.func.value.id] = Unk("extend by a non-literal")
             return Const(None)
+        if isinstance(node.func, ast.Attribute) and isinstance(node.func.value, ast.Name) and isinstance(st.env.get(node.func.value.id), BufV) and not kw:
+            nm, buf = node.func.value.id, st.env[node.func.value.id]
+            if node.func.attr == "write" and len(args) == 1 and is_str(args[0]):
+                st.env[nm] = BufV(buf.parts + (args[0],))
+                return Len(args[0])
+            if node.func.attr == "writelines" and len(args) == 1 and isinstance(args[0], Tup) and all(is_str(x) for x in args[0].items):
+                st.env[nm] = BufV(buf.parts + args[0].items)
+                return Const(None)
+            if node.func.attr == "getvalue" and not args:
+                return cat(*buf.parts)
+            if node.func.attr == "close" and not args:
+                return Const(None)
+            st.env[nm] = Unk(f"text buffer used through .{node.func.attr}()")
+            return Unk("text buffer")
         if isinstance(node.func, ast.Attribute) and isinstance(node.func.value, ast.Name) and node.func.attr in _MUTATORS \
                 and isinstance(st.env.get(node.func.value.id), (Tup, DictV)):
             # a list / dict held in a local is altered in place: followed for the common forms, otherwise its content is unknown from here on
@@ -1557,6 +1726,26 @@ class Engine:
                 return Const(None)
             st.env[nm] = Unk(f"altered in place by .{how}()")
             return Unk(f".{how}()")
+        # the callee is a *value*: a local, or an expression such as `(a if test else b)(...)`
+        fv = st.env.get(node.func.id) if isinstance(node.func, ast.Name) else (None if isinstance(node.func, ast.Attribute) else self._ev(node.func, st))
+        if isinstance(fv, Opaque) and fv.name == "bound:format":
+            return template_format(fv.args[0], args, kw)
+        if not isinstance(node.func, (ast.Name, ast.Attribute)) and (isinstance(fv, FuncV) or (isinstance(fv, Opaque) and fv.name.startswith("name:") and not fv.args)):
+            r = self.apply_value(fv, list(args), st, node, kw)
+            if r is not NotImplemented:
+                return r
+        if isinstance(fv, Opaque) and fv.name == "partial":
+            f, pargs, pkw = fv.args
+            kw2 = {**{k.s: v for k, v in pkw.items}, **kw}
+            r = self.apply_value(f, list(pargs.items) + list(args), st, node, kw2)
+            if r is not NotImplemented:
+                return r
+            if isinstance(f, Opaque) and f.name[5:] in self.mod.funcs:
+                # a function of the module that is not followed: the call is recorded under its own name with the full argument list
+                full = _by_position(self.mod.funcs[f.name[5:]], list(pargs.items) + list(args), kw2)
+                st.effects = st.effects + ((f.name[5:], tuple(full) if full is not None else None, (), node),)
+                return CallS(f.name[5:], tuple(full)) if full is not None else Unk("partial call")
+            return Unk("call of a partial that is not followed")
         rc = self.resolve_callee(node, st)
         if rc is not None:
             # a followed call in a position that is not evaluated ahead (arm of a conditional expression, comprehension element ...):
@@ -1567,6 +1756,7 @@ class Engine:
         # a local bound to a function of the module (a formatter passed as argument)
         if isinstance(node.func, ast.Name) and isinstance(st.env.get(node.func.id), Opaque) and st.env[node.func.id].name.startswith("name:") \
                 and st.env[node.func.id].name[5:] in self.mod.funcs and not kw:
+            st.effects = st.effects + ((st.env[node.func.id].name[5:], tuple(args), (), node),)
             return CallS(st.env[node.func.id].name[5:], tuple(args))
         # methods of string values (receiver evaluated, not named)
         if isinstance(node.func, ast.Attribute):
@@ -1618,6 +1808,11 @@ class Engine:
             toks = _tokens(args[1])
             return make_fmt(parse_spec(toks) if toks is not None else None, args[0])
         st.effects = st.effects + ((name or ast.unparse(node.func), tuple(args), tuple(sorted(kw.items())), node),)
+        if not (name in _PURE_BUILTINS or (name or "").startswith(("np.", "numpy.", "math.", "os.path."))):
+            # a list / dict / text buffer of this frame handed to code that is not followed may be altered there
+            for a in list(node.args) + [k.value for k in node.keywords]:
+                if isinstance(a, ast.Name) and isinstance(st.env.get(a.id), (Tup, DictV, BufV)) and a.id in self.local_names():
+                    st.env[a.id] = Unk("handed to code that is not followed")
         if name is not None and "." not in name and name in self.mod.funcs and name not in st.env:
             if kw:
                 fn = self.mod.funcs[name]
@@ -1631,28 +1826,29 @@ class Engine:
             return CallS(name, tuple(args))
         return Opaque("call:" + (name or ast.unparse(node.func)), tuple(args) + tuple(Opaque("kw:" + k, (v,)) for k, v in sorted(kw.items())))
 
-    def apply_value(self, f, args, st, node):
+    def apply_value(self, f, args, st, node, kw=None):
         """call a function *value* (lambda / nested def of this frame, a followed module function, a builtin) on argument values;
         NotImplemented when it is not followed or has more than one outcome"""
         site = ast.copy_location(ast.Call(func=ast.Name(id="<applied>", ctx=ast.Load()), args=[], keywords=[]), node)
         if isinstance(f, FuncV):
             if f.owner != id(self) or not _plain_function(f.node) or len(self._stack) >= MAX_INLINE_DEPTH:
                 return NotImplemented
-            return self._inline_single("<local>" + getattr(f.node, "name", "lambda"), f.node, list(args), {}, st, site)
+            site._c12_closure = f.closure
+            return self._inline_single("<local>" + getattr(f.node, "name", "lambda"), f.node, list(args), dict(kw or {}), st, site)
         if isinstance(f, Opaque) and f.name.startswith("name:") and not f.args:
             nm = f.name[5:]
             if nm in _BUILTINS and nm not in self.mod.funcs:
-                return getattr(self, "b_" + nm)(list(args), st)
+                return getattr(self, "b_" + nm)(list(args), st) if not kw else NotImplemented
             fn = self.mod.funcs.get(nm)
             if fn is not None and "." not in nm and (nm + "#2") not in self.mod.funcs and nm not in self._stack and self.inline is not None \
                     and self.inline(nm) and _plain_function(fn) and len(self._stack) < MAX_INLINE_DEPTH:
                 if self.call_hook is not None:
-                    r = self.call_hook(nm, list(args), {}, site, st, self)
+                    r = self.call_hook(nm, list(args), dict(kw or {}), site, st, self)
                     if r is not NotImplemented:
                         return r
-                return self._inline_single(nm, fn, list(args), {}, st, site)
+                return self._inline_single(nm, fn, list(args), dict(kw or {}), st, site)
             if fn is not None and self.call_hook is not None:
-                return self.call_hook(nm, list(args), {}, site, st, self)
+                return self.call_hook(nm, list(args), dict(kw or {}), site, st, self)
         return NotImplemented
 
     def library_call(self, name, node, args, kw, st):
@@ -1679,6 +1875,10 @@ class Engine:
                 sl = slice(None, idx[0]) if len(idx) == 1 else slice(*idx)
                 if sl.step is None or sl.step > 0:
                     return Tup(_as_sequence(args[0]).items[sl])
+        if lib == "io.StringIO" and not args and not kw:
+            return BufV(())
+        if lib == "functools.partial" and args and (isinstance(args[0], FuncV) or (isinstance(args[0], Opaque) and args[0].name.startswith("name:") and not args[0].args)):
+            return Opaque("partial", (args[0], Tup(tuple(args[1:])), DictV(tuple((Lit(k), v) for k, v in sorted(kw.items())))))
         if lib == "itertools.chain" and not kw and all(isinstance(_as_sequence(a), Tup) for a in args):
             return Tup(tuple(x for a in args for x in _as_sequence(a).items))
         if lib in ("math.fabs",) and len(args) == 1 and not kw:
@@ -2047,6 +2247,33 @@ def _altered_in_functions(tree):
                 got.add(base.id)
     tree._c12_altered = got
     return got
+
+
+def _by_position(fn, args, kw):
+    """positional argument list of a call of `fn` with these arguments and keywords (defaults are not filled in), None when they do not fit"""
+    names = [a.arg for a in fn.args.posonlyargs + fn.args.args]
+    if len(args) > len(names) or any(k not in names for k in kw):
+        return None
+    full = list(args) + [None] * (len(names) - len(args))
+    for k, v in kw.items():
+        i = names.index(k)
+        if full[i] is not None:
+            return None
+        full[i] = v
+    while full and full[-1] is None:
+        full.pop()
+    return None if None in full else full
+
+
+def _reown(v, old, new, env):
+    """a function value that leaves the frame that defined it keeps that frame's locals"""
+    if isinstance(v, FuncV):
+        return FuncV(v.node, new, dict(env)) if v.owner == old else v
+    if isinstance(v, Tup):
+        return Tup(tuple(_reown(x, old, new, env) for x in v.items))
+    if isinstance(v, DictV):
+        return DictV(tuple((k, _reown(x, old, new, env)) for k, x in v.items))
+    return v
 
 
 def _as_sequence(v):
